@@ -338,7 +338,10 @@ func (r *runner) doItem(it Item) {
 			return
 		}
 		// the model's final GC pass stands for min-idle 0 on a clock that always advances; the fake clock does not
-		time.Sleep(time.Nanosecond)
+		// (SCHED_NO_SHUTDOWN_TICK=1 shows the difference: unheld locks then survive the final pass on the real side)
+		if os.Getenv("SCHED_NO_SHUTDOWN_TICK") == "" {
+			time.Sleep(time.Nanosecond)
+		}
 		r.shut = true
 		cl := r.closer
 		go cl()
